@@ -422,13 +422,30 @@ func (fr *Frame) zeroSlice(st *State, base, ln *Term, et types.Type) {
 
 func (fr *Frame) sliceOp(x *ssa.Slice, st *State) Value {
 	base := fr.get(x.X)
-	if x.Low == nil && x.High == nil {
+	lowZero := x.Low == nil
+	if x.Low != nil {
+		if lt, ok := fr.get(x.Low).(*Term); ok && lt.Op == "int" && lt.Int == 0 {
+			lowZero = true
+		}
+	}
+	if lowZero && x.Max == nil {
 		if s, ok := base.(SliceV); ok {
-			return s
+			if x.High == nil {
+				return s
+			}
+			hi := fr.get(x.High).(*Term)
+			fr.vc.check(st, "bounds", fr.label(x.X)+"[:h]", And(Le(IntLit(0), hi), Le(hi, App("capof", SInt, s.Base, s.Len))), x.Pos())
+			fr.vc.addFact(st, Le(s.Len, App("capof", SInt, s.Base, s.Len)))
+			return SliceV{s.Base, hi}
 		}
 		if pt, ok := x.X.Type().Underlying().(*types.Pointer); ok {
 			if at, ok := pt.Elem().Underlying().(*types.Array); ok {
-				return SliceV{base.(*Term), IntLit(at.Len())}
+				if x.High == nil {
+					return SliceV{base.(*Term), IntLit(at.Len())}
+				}
+				hi := fr.get(x.High).(*Term)
+				fr.vc.check(st, "bounds", fr.label(x.X)+"[:h]", And(Le(IntLit(0), hi), Le(hi, IntLit(at.Len()))), x.Pos())
+				return SliceV{base.(*Term), hi}
 			}
 		}
 	}
